@@ -122,8 +122,11 @@ def run_source_check(pid, tier, t0, items, rule, extra_cov, level="translation_v
             py = sorted({t for l in it["b_text"].split("\n") for t in ic10load.tokenize(l)[1:] if t in PY_SPELLINGS})
             if py:
                 bad.append("PYTHON_VALUE_IN_EMITTED_TEXT:" + ",".join(py))
+            ud = CL.undefined_jump_targets(it["b_text"])
+            if ud:
+                bad.append("JUMP_TO_UNDEFINED_LABEL:" + ",".join(ud))
         for v in sorted(bad):
-            clause = v.split(":")[-1] if v.startswith(("MON_", "FAULT_")) else v.split(":")[0] if v.startswith("PYTHON_VALUE") else v
+            clause = v.split(":")[-1] if v.startswith(("MON_", "FAULT_")) else v.split(":")[0] if v.startswith(("PYTHON_VALUE", "JUMP_TO_UNDEFINED")) else v
             if rep.violation([it["name"], it["name"] + "@" + it["tag"]] + ["shape:" + x for x in it.get("shapes", [])]
                              + ["shape:%s@%s" % (x, it["tag"]) for x in it.get("shapes", [])], clause,
                              {"property": pid, "case": it["name"], "variant": it["tag"], "verdict": v, "source": it["src"],
